@@ -92,7 +92,7 @@ def run(tier, replay=None):
         if e["ev"] == "chunked" and e["st"] == 200 and e["at"] == "after" and e["doneUS"] > 300_000:
             late += 1
     c.extra["late_tail"] = {"responses_after_segment_end_lasting_over_300ms": late,
-                            "note": "a trailing partial chunk is paced with the full chunk duration (not restricted by C09's text)"}
+                            "note": "informational, not restricted by C09's text: before /repo d0762dd a trailing partial chunk was paced with the full chunk duration"}
     c.traces += st["scenarios"]
     c.events += lines
     c.distinct_nontrivial = st["distinct"]
